@@ -3,7 +3,7 @@
 use std::{
     cell::RefCell,
     collections::HashMap,
-    path::{Path, PathBuf},
+    path::{Component, Path, PathBuf},
     sync::Arc,
 };
 
@@ -175,6 +175,9 @@ impl DataType for Data {
         if path.is_absolute() {
             return Err(StoreError::PathIsAbsolute);
         }
+        if !path.components().all(|c| matches!(c, Component::Normal(_))) {
+            return Err(StoreError::InvalidPathComponent);
+        }
         for ancestor in path.ancestors().skip(1) {
             if !ancestor.as_os_str().is_empty() && items.contains_key(ancestor) {
                 return Err(StoreError::DirUnderFile);
@@ -234,6 +237,9 @@ impl DataType for Image {
         }
         if path.is_absolute() {
             return Err(StoreError::PathIsAbsolute);
+        }
+        if !path.components().all(|c| matches!(c, Component::Normal(_))) {
+            return Err(StoreError::InvalidPathComponent);
         }
         if path.parent().is_some_and(|p| !p.as_os_str().is_empty()) {
             return Err(StoreError::Subdir);
@@ -323,18 +329,23 @@ impl<T: DataType> Store<T> {
     /// In a data store, returns a [`StoreError`] if:
     /// 1. The path is empty.
     /// 2. The path is absolute.
-    /// 3. Any of the path's ancestors is already tracked in the store, implying
+    /// 3. The path contains anything but plain file and directory names, e.g. `..`
+    ///    or `.`.
+    /// 4. Any of the path's ancestors is already tracked in the store, implying
     ///    the path to be nested under a file.
-    /// 4. The path is an ancestor of a path already tracked in the store, implying
+    /// 5. The path is an ancestor of a path already tracked in the store, implying
     ///    a tracked path to be nested under a file.
     ///
     /// In an images store, returns an [`StoreError`] if:
     /// 1. The path is empty.
     /// 2. The path is absolute.
-    /// 3. The path contains an ancestor, implying subdirectories.
-    /// 4. The image data does not start with the PNG header.
+    /// 3. The path contains anything but a plain file name, e.g. `..` or `.`.
+    /// 4. The path contains an ancestor, implying subdirectories.
+    /// 5. The image data does not start with the PNG header.
     pub fn insert(&mut self, path: PathBuf, data: Vec<u8>) -> Result<(), StoreError> {
         self.impl_type.validate_entry(&path, &self.items, &data)?;
+        // Store the path in its plain form, without e.g. trailing or repeated separators.
+        let path: PathBuf = path.components().collect();
         self.items.insert(path, RefCell::new(Item::Loaded(data.into())));
         Ok(())
     }
